@@ -70,6 +70,15 @@ CHECKS = {
         note=TRUST + "regex-based _encode/preprocess_text/_template_to_body are glue under the diff; ASCII whitespace; "
              "parser function name table regenerated from the live module.",
         ref="DESIGN.md section 4 C04"),
+    "C13": dict(
+        technique="Coq model of selective expansion and hooks + selection-rule theorems; output/hook-log correspondence",
+        text="Model/Expand.v includes check_template_need_expand, re-emission of unselected calls, the expand_parserfns "
+             "switch and template_fn/post_template_fn; it is compared with Wtp.expand on generated libraries x selections x "
+             "switches x hook tables (outputs inside Coq; hook logs against the reference semantics). Proved: the selection "
+             "rule as a single formula and its corollaries. PARTIAL: the identity corollary (nothing selected -> text "
+             "unchanged) and exactness of re-emission are decided per run, not proved.",
+        note=TRUST + "regex-based _encode/_finalize_expand glue under the diff; hooks are harness-supplied tables.",
+        ref="DESIGN.md section 4 C13"),
 }
 
 NOT_YET = "check not built yet in this round (planned, see DESIGN.md section 8)"
